@@ -212,63 +212,43 @@ func minimizeCfg(cfg Ext4Cfg, kind string, scratch string) Ext4Cfg {
 		return e == nil && !ok && fsckClass(out) == kind
 	}
 	cur := cfg
-	for changed := true; changed; {
-		changed = false
-		try := func(c Ext4Cfg) {
-			if !changed && fails(c) {
-				cur = c
-				changed = true
-			}
-		}
+	for {
+		// candidates: the current configuration with one parameter back at its default, in a fixed order
+		var cands []Ext4Cfg
 		for i := range cur.Off {
 			c := cur
 			c.Off = append(append([]string(nil), cur.Off[:i]...), cur.Off[i+1:]...)
-			try(c)
+			cands = append(cands, c)
 		}
 		for i := range cur.On {
 			c := cur
 			c.On = append(append([]string(nil), cur.On[:i]...), cur.On[i+1:]...)
-			try(c)
+			cands = append(cands, c)
 		}
-		if cur.BPG != 0 {
+		reset := func(f func(c *Ext4Cfg) bool) {
 			c := cur
-			c.BPG = 0
-			try(c)
+			if f(&c) {
+				cands = append(cands, c)
+			}
 		}
-		if cur.InodeCount != 0 {
-			c := cur
-			c.InodeCount = 0
-			try(c)
+		reset(func(c *Ext4Cfg) bool { ok := c.Label != ""; c.Label = ""; return ok })
+		reset(func(c *Ext4Cfg) bool { ok := c.Start != 0; c.Start = 0; return ok })
+		reset(func(c *Ext4Cfg) bool { ok := c.ReservedPct != 0; c.ReservedPct = 0; return ok })
+		reset(func(c *Ext4Cfg) bool { ok := c.LogFlex != 0; c.LogFlex = 0; return ok })
+		reset(func(c *Ext4Cfg) bool { ok := c.InodeRatio != 0; c.InodeRatio = 0; return ok })
+		reset(func(c *Ext4Cfg) bool { ok := c.InodeCount != 0; c.InodeCount = 0; return ok })
+		reset(func(c *Ext4Cfg) bool { ok := c.BPG != 0; c.BPG = 0; return ok })
+		reset(func(c *Ext4Cfg) bool { ok := c.SPB != 0; c.SPB = 0; return ok })
+		progressed := false
+		for _, c := range cands {
+			if fails(c) {
+				cur = c
+				progressed = true
+				break
+			}
 		}
-		if cur.InodeRatio != 0 {
-			c := cur
-			c.InodeRatio = 0
-			try(c)
-		}
-		if cur.LogFlex != 0 {
-			c := cur
-			c.LogFlex = 0
-			try(c)
-		}
-		if cur.ReservedPct != 0 {
-			c := cur
-			c.ReservedPct = 0
-			try(c)
-		}
-		if cur.Start != 0 {
-			c := cur
-			c.Start = 0
-			try(c)
-		}
-		if cur.Label != "" {
-			c := cur
-			c.Label = ""
-			try(c)
-		}
-		if cur.SPB != 0 {
-			c := cur
-			c.SPB = 0
-			try(c)
+		if !progressed {
+			break
 		}
 	}
 	return cur
